@@ -425,7 +425,7 @@ pub fn run(cfg: &RunCfg) -> i32 {
   let thorough = cfg.tier == Tier::Thorough;
   let mut report = Report::new(
     cfg,
-    "bounded-exhaustive enumeration. spellings: every string over {$,A,B,a,1,_} up to length 6 (thorough; quick: up to length 4 plus a seed-chosen 5% of lengths 5-6) x 23 languages in one leaf context each, against a regex-free reference classifier; An+B: every string over {n,N,+,-,0,1,2,3,space} up to length 6 (quick: length <= 4 plus 3% sample) as nthChild of `kind: number` on [1..40], all 40 indices; substring: every text of <= 4 chars over {a,é,😀} x start,end in {absent,-6..6}; templates: every string over {$,A,a,1,_,space} up to length 6 (quick: <= 5) with A, A1, AA, $$$A bound. evaluations = enumerated cases; non-trivial = distinct cases containing a sigil other than the canonical `$A` / well-formed formulas / all substring cases.",
+    "bounded-exhaustive enumeration. spellings: every string over {$,A,B,a,1,_} up to length 6 (thorough; quick: up to length 5 plus a seed-chosen 5% of length 6) x 23 languages in one leaf context each, against a regex-free reference classifier; An+B: every string over {n,N,+,-,0,1,2,3,space} up to length 6 (quick: length <= 5 plus 3% sample) as nthChild of `kind: number` on [1..40], all 40 indices; substring: every text of <= 4 chars over {a,é,😀} x start,end in {absent,-6..6}; templates: every string over {$,A,a,1,_,space} up to length 6 (quick: <= 5) with A, A1, AA, $$$A bound. evaluations = enumerated cases; non-trivial = distinct cases containing a sigil other than the canonical `$A` / well-formed formulas / all substring cases.",
   );
   report.assume("An+B: all whitespace is ignored before parsing (the implementation's documented behaviour); rejection is required only for strings malformed after that");
   report.assume("templates: `_`-first and digit-first names after a sigil are left open by the property and skipped (counted)");
@@ -436,7 +436,7 @@ pub fn run(cfg: &RunCfg) -> i32 {
   crate::replay_known::<Case>(&mut report, &known, check);
   // ---- spellings
   let all = strings_over(&['$', 'A', 'B', 'a', '1', '_'], 6);
-  let strings = if thorough { all } else { sample(all, |s| s.chars().count() <= 4, cfg.seed, "sp", 5) };
+  let strings = if thorough { all } else { sample(all, |s| s.chars().count() <= 5, cfg.seed, "sp", 5) };
   let mut cases = vec![];
   for li in LANGS {
     for s in &strings {
@@ -450,7 +450,7 @@ pub fn run(cfg: &RunCfg) -> i32 {
   report.absorb("spellings", o);
   // ---- An+B
   let all = strings_over(&['n', 'N', '+', '-', '0', '1', '2', '3', ' '], 6);
-  let strings = if thorough { all } else { sample(all, |s| s.chars().count() <= 4, cfg.seed, "anb", 3) };
+  let strings = if thorough { all } else { sample(all, |s| s.chars().count() <= 5, cfg.seed, "anb", 3) };
   let cases: Vec<Case> = strings.into_iter().map(|formula| Case::AnB { formula }).collect();
   let o = drive_list(cfg, &known, &cases, check);
   report.absorb("anb", o);
